@@ -445,6 +445,9 @@ func muxRun(b *muxBehaviour, conc muxConc) (v muxVerdict, table []string, diverg
 	if err != nil {
 		return muxVerdict{}, nil, "setup: " + err.Error()
 	}
+	if conc.TimerEp != "" {
+		time.Sleep(time.Second) // the check armed by MakeSession gets an instant of its own
+	}
 	defer func() {
 		w.shutdown()
 		if v.Key == "" && w.leftover.Key != "" {
